@@ -111,24 +111,62 @@ impl DrawTarget for NullDefault {
     }
 }
 
-/// Run one library call; `f` returns (steps, within_budget, rejected_ok) where rejected_ok is only
-/// meaningful for the rejection clause (-1 = not applicable, 1 = out-of-range input was rejected
-/// without effect, 0 = it was accepted / had an effect).
+// Run one library call; `f` returns (steps, within_budget, rejected_ok) where rejected_ok is only
+// meaningful for the rejection clause (-1 = not applicable, 1 = out-of-range input was rejected
+// without effect, 0 = it was accepted / had an effect).
+// ---- stack use of one library call ("deep" mode, dev-profile build only) -----------------------------------
+// A call whose stack use grows with the LENGTH of its input (recursion per vertex / line / character) does not
+// terminate on a finite stack; optimised builds turn most such recursion into loops, so the measurement only
+// means something at opt-level 0, which is what the `deep` run of the orchestrator builds.  The region below
+// the stack pointer is painted, the call runs, the deepest overwritten word is found.  -1 = not measured.
+thread_local! { static STACK_PROBE: Cell<bool> = const { Cell::new(false) }; }
+const PAINT: usize = 48 << 20;
+const MARGIN: usize = 64 << 10; // frames of the painting / scanning code itself live here
+const PATTERN: u64 = 0xA5A5_5A5A_C3C3_3C3C;
+
+#[inline(never)]
+fn with_stack_probe<T>(f: impl FnOnce() -> T) -> (T, i64) {
+    if !STACK_PROBE.with(|p| p.get()) {
+        return (f(), -1);
+    }
+    let marker = 0u8;
+    let sp = (&marker as *const u8 as usize) & !7;
+    let lo = sp - MARGIN - PAINT;
+    // SAFETY (harness only): [lo, sp - MARGIN) lies inside this thread's stack mapping (the deep threads are
+    // created with PAINT + MARGIN + 32 MB of stack and call this near their top) and below every live frame.
+    unsafe { std::slice::from_raw_parts_mut(lo as *mut u64, PAINT / 8).fill(PATTERN) };
+    let r = f();
+    let used = unsafe {
+        let s = std::slice::from_raw_parts(lo as *const u64, PAINT / 8);
+        match s.iter().position(|w| *w != PATTERN) {
+            Some(k) => (sp - (lo + 8 * k)) as i64,
+            None => 0,
+        }
+    };
+    (r, used)
+}
+
 fn call(out: &mut Vec<Value>, api: &str, f: impl FnOnce() -> (usize, bool, i32)) {
     let mut da = 0u64;
+    let mut stack = -1i64;
     let r = catch(|| {
         let a0 = allocs();
-        let r = f();
+        let (r, st) = with_stack_probe(f);
         da = allocs() - a0;
+        stack = st;
         r
     });
     out.push(match r {
-        Ok((steps, ok, rej)) => json!({"api": api, "outcome": if ok { "returned" } else { "budget" }, "msg": "", "loc": "", "allocs": da, "steps": steps, "rej": rej}),
-        Err(p) => json!({"api": api, "outcome": "panic", "msg": p.msg, "loc": p.loc, "allocs": 0, "steps": 0, "rej": -1}),
+        Ok((steps, ok, rej)) => json!({"api": api, "outcome": if ok { "returned" } else { "budget" }, "msg": "", "loc": "", "allocs": da, "steps": steps, "rej": rej, "stack": stack}),
+        Err(p) => json!({"api": api, "outcome": "panic", "msg": p.msg, "loc": p.loc, "allocs": 0, "steps": 0, "rej": -1, "stack": -1}),
     });
 }
 
 const CAP: usize = 150_000;
+/// step cap of one call: the deep run has inputs with 12 000 vertices / characters
+fn cap() -> usize {
+    if STACK_PROBE.with(|p| p.get()) { 6_000_000 } else { CAP }
+}
 
 fn prim_calls(d: &Value, out: &mut Vec<Value>) {
     let mut shape: Option<Shape> = None;
@@ -140,7 +178,7 @@ fn prim_calls(d: &Value, out: &mut Vec<Value>) {
     if let Ok(s) = catch(|| Shape::from_desc(&d["shape"])) {
         shape = Some(s);
     } else {
-        out.push(json!({"api": "construct", "outcome": "panic", "msg": "constructor panicked", "loc": "", "allocs": 0, "steps": 0, "rej": -1}));
+        out.push(json!({"api": "construct", "outcome": "panic", "msg": "constructor panicked", "loc": "", "allocs": 0, "steps": 0, "rej": -1, "stack": -1}));
     }
     let Some(s) = shape else { return };
     let st = style_from::<C>(&d["style"]);
@@ -168,8 +206,12 @@ fn prim_calls(d: &Value, out: &mut Vec<Value>) {
         });
     }
     let area = bb.size.width as usize * bb.size.height as usize;
-    let budget = (4 * area + 64).min(CAP);
-    let capped = 4 * area + 64 > CAP;
+    // a polyline may visit a pixel once per segment: allow the length of every segment (<= width + height of the box)
+    // (deep run only: the ordinary cases have at most 8 vertices and keep their budgets)
+    let nv = if let (Shape::Polyline(v, _), true) = (&s, STACK_PROBE.with(|p| p.get())) { v.len() } else { 0 };
+    let seg = nv * (bb.size.width as usize + bb.size.height as usize + 4);
+    let budget = (4 * area + 64 + seg).min(cap());
+    let capped = 4 * area + 64 + seg > cap();
     call(out, "points", || {
         let (n, done) = s.visit_points(budget, &mut |_| {});
         (n, done || capped, -1)
@@ -177,8 +219,8 @@ fn prim_calls(d: &Value, out: &mut Vec<Value>) {
     // pixels()/draw() may legitimately produce more than the primitive's box (outside strokes)
     let w = i(&d["style"]["w"]) as usize;
     let sarea = (bb.size.width as usize + 2 * w + 2) * (bb.size.height as usize + 2 * w + 2);
-    let sbudget = (6 * sarea + 4096).min(CAP);
-    let scapped = 6 * sarea + 4096 > CAP;
+    let sbudget = (6 * sarea + 4096 + seg * (2 * w + 3)).min(cap());
+    let scapped = 6 * sarea + 4096 + seg * (2 * w + 3) > cap();
     call(out, "pixels", || {
         let (n, done) = s.visit_pixels(&st, sbudget, &mut |_| {});
         (n, done || scapped, -1)
@@ -261,12 +303,12 @@ fn text_calls(d: &Value, out: &mut Vec<Value>) {
         (0, true, -1)
     });
     call(out, "text_draw_native", || {
-        let mut t = NullTarget::new(CAP);
+        let mut t = NullTarget::new(cap());
         let _ = Text::with_text_style(&s, pos, cs, ts).draw(&mut t).unwrap();
         (t.steps, !t.over, -1)
     });
     call(out, "text_draw_default_target", || {
-        let mut t = NullDefault(NullTarget::new(CAP));
+        let mut t = NullDefault(NullTarget::new(cap()));
         let _ = Text::with_text_style(&s, pos, cs, ts).draw(&mut t).unwrap();
         (t.0.steps, !t.0.over, -1)
     });
@@ -597,10 +639,74 @@ fn gen_cases(th: bool, seed: u64) -> Vec<Value> {
     v
 }
 
+/// Inputs whose LENGTH is large while every coordinate stays display-scale: long runs of coincident vertices,
+/// long zig-zags, long strings and many lines (see `with_stack_probe`).
+fn deep_cases() -> Vec<Value> {
+    const P: usize = 12_000;
+    let mut v = vec![];
+    let coincident: Vec<Value> = (0..P).map(|_| json!([5, 5])).collect();
+    let runs: Vec<Value> = (0..P).map(|j| if (j / 100) % 2 == 0 { json!([0, 0]) } else { json!([40, 25]) }).collect();
+    let zigzag: Vec<Value> = (0..P).map(|j| json!([(j % 64) as i64, ((j * 7) % 48) as i64])).collect();
+    let tail: Vec<Value> = (0..P).map(|j| if j < 3 { json!([3 * j as i64, 7]) } else { json!([9, 9]) }).collect();
+    for pts in [coincident, runs, zigzag, tail] {
+        for w in [1u32, 3] {
+            v.push(json!({"kind":"prim","shape":{"k":"polyline","v":pts,"off":[2, -3]},"style":style_desc(-1, 0xF800, w, 0)}));
+        }
+    }
+    let many_lines: Vec<u32> = (0..P).map(|_| 10).collect();
+    let long_line: Vec<u32> = (0..P).map(|j| 65 + (j % 26) as u32).collect();
+    let crlf: Vec<u32> = (0..P).map(|j| if j % 2 == 0 { 13 } else { 10 }).collect();
+    let unmapped: Vec<u32> = (0..P).map(|_| 0x2603).collect();
+    for (si, s) in [many_lines, long_line, crlf, unmapped].iter().enumerate() {
+        for (k, fname) in [FONTS[0].0, FONTS[FONTS.len() / 2].0, "null"].iter().enumerate() {
+            v.push(json!({"kind":"text","s":s,"font":fname,"tc":0xFFFF,"bc":if k == 1 { 0x11 } else { -1 },"ul":-1,"st":-1,"al":(si + k) % 3,
+                "bl":k % 4,"lh":[1, 100],"pos":[3, 4]}));
+        }
+    }
+    v
+}
+
+fn write_case(rec: &mut Rec, d: &Value, evs: Vec<Value>) {
+    rec.begin(d.clone());
+    let (coords, sizes, w) = numbers(d);
+    if evs.iter().any(|e| i(&e["steps"]) > 0) {
+        rec.nontrivial();
+    }
+    for e in &evs {
+        if e["outcome"] == "panic" {
+            rec.note("panicking_calls");
+        }
+        if i(&e["stack"]) >= 0 {
+            rec.note("stack_measured_calls");
+            rec.note_n("stack_max_kb_sum", (i(&e["stack"]) / 1024) as u64);
+        }
+    }
+    rec.ev("calls", json!({"kind": d["kind"], "coords": coords, "sizes": sizes, "w": w, "calls": evs}));
+}
+
 fn main() {
     let args = Args::parse();
     install_panic_hook();
     let mut rec = Rec::new(&args);
+    if args.tier == "deep" {
+        // one case at a time, each in a thread with a big stack, with the stack probe on
+        for d in args.cases.clone().unwrap_or_else(deep_cases) {
+            let evs = std::thread::scope(|sc| {
+                std::thread::Builder::new()
+                    .stack_size(PAINT + MARGIN + (32 << 20))
+                    .spawn_scoped(sc, || {
+                        STACK_PROBE.with(|p| p.set(true));
+                        case_events(&d)
+                    })
+                    .expect("spawn")
+                    .join()
+                    .expect("worker")
+            });
+            write_case(&mut rec, &d, evs);
+        }
+        rec.finish(json!({}));
+        return;
+    }
     let cases: Vec<Value> = if let Some(c) = &args.cases {
         c.clone()
     } else {
@@ -619,17 +725,7 @@ fn main() {
     for part in results {
         for evs in part {
             let d = it.next().unwrap();
-            rec.begin(d.clone());
-            let (coords, sizes, w) = numbers(d);
-            if evs.iter().any(|e| i(&e["steps"]) > 0) {
-                rec.nontrivial();
-            }
-            for e in &evs {
-                if e["outcome"] == "panic" {
-                    rec.note("panicking_calls");
-                }
-            }
-            rec.ev("calls", json!({"kind": d["kind"], "coords": coords, "sizes": sizes, "w": w, "calls": evs}));
+            write_case(&mut rec, d, evs);
         }
     }
     rec.finish(json!({}));
